@@ -397,6 +397,42 @@ impl Network {
 }
 
 impl Network {
+    /// Upper bound for the number of vehicles of a schedule: for each service trip the largest
+    /// formation it can get (the smaller of the maximal formation counts of its vehicle type and
+    /// its route segment; if both are unbounded, the number of vehicles its demand requires) plus
+    /// one vehicle for each maintenance track.
+    pub fn vehicle_upper_bound(
+        service_trips: &HashMap<VehicleTypeIdx, Vec<ServiceTrip>>,
+        maintenance_slots: &[MaintenanceSlot],
+        vehicle_types: &VehicleTypes,
+    ) -> VehicleCount {
+        let for_service_trips: VehicleCount = service_trips
+            .values()
+            .flatten()
+            .map(|trip| {
+                let vehicle_type = vehicle_types.get(trip.vehicle_type()).unwrap();
+                let required = trip
+                    .passengers()
+                    .div_ceil(vehicle_type.capacity())
+                    .max(trip.seated().div_ceil(vehicle_type.seats()))
+                    .max(1);
+                match (
+                    vehicle_type.maximal_formation_count(),
+                    trip.maximal_formation_count(),
+                ) {
+                    (Some(l1), Some(l2)) => l1.min(l2),
+                    (Some(l), None) | (None, Some(l)) => l,
+                    (None, None) => required,
+                }
+            })
+            .sum();
+        let for_maintenance: VehicleCount = maintenance_slots
+            .iter()
+            .map(|slot| slot.track_count())
+            .sum();
+        for_service_trips + for_maintenance
+    }
+
     /// create a new network from the given data.
     /// The nodes idx must be in such a way that service_trips flattened and then maintenance
     /// nodes as vec gives the index within the vector.
@@ -421,19 +457,8 @@ impl Network {
         // add overflow depot:
         // its has infinity capacity for all types (i.e., service trips * maximal_formation_count)
         // but it is located Nowhere, i.e. Distance is Infinity to all other locations
-        let number_of_service_nodes = service_trips.values().map(|vec| vec.len()).sum::<usize>();
-        let max_formation_count = vehicle_types
-            .iter()
-            .map(|vt| {
-                vehicle_types
-                    .get(vt)
-                    .unwrap()
-                    .maximal_formation_count()
-                    .unwrap_or(1)
-            })
-            .max()
-            .unwrap_or(1);
-        let overflow_capacity = number_of_service_nodes as VehicleCount * max_formation_count;
+        let overflow_capacity =
+            Network::vehicle_upper_bound(&service_trips, &maintenance_slots, &vehicle_types);
         let overflow_depot_id = DepotIdx::from(depots.len() as Idx);
         let overflow_depot = Depot::new(
             overflow_depot_id,
